@@ -11,6 +11,7 @@ Rules pattern-match on the terms and event traces.  Terms are nested tuples:
   ('closure', path, captures) ('index', t, i)
 """
 import collections
+import core as _core
 from core import op_place, op_const, Call, Missing
 
 
@@ -322,7 +323,8 @@ class SymEx:
         c = op_const(op)
         if c is not None:
             if 'fn' in c:
-                return ('fn', c['fn'].get('res') or c['fn']['def'])
+                f_ = c['fn']
+                return ('fn', _core.ID2DEF.get(f_.get('res_id')) or f_.get('res') or _core.ID2DEF.get(f_.get('id')) or f_['def'])
             if 'val' in c:
                 return ('const', c['val'])
             r = c.get('repr', c['ty'])
@@ -367,7 +369,7 @@ class SymEx:
             if rv['agg'] == 'adt':
                 return ('adt', rv['adt'], rv['variant'], tuple(rv['fields']), ops)
             if rv['agg'] == 'closure':
-                return ('closure', rv['closure'], ops)
+                return ('closure', _core.ID2DEF.get(rv.get('closure_id'), rv['closure']), ops)
             return ('agg', rv['agg'], ops)
         if k == 'repeat':
             return ('repeat', self.operand(st, rv['op']))
